@@ -20,8 +20,7 @@ theorem avoid_line (shapes : List Shape) (y w h : Rat) (cb : CB) (hl : cb.rtl = 
     y ≤ pl.y ∧ cb.cx ≤ pl.x ∧ pl.x + pl.avail ≤ cb.cx + cb.w ∧
     ∃ res, avoidLoop (shapes.length + 1) shapes w h cb.cx (cb.cx + cb.w) y = some res ∧
       pl.y = res.y ∧ pl.x = res.l ∧ pl.avail = res.r - res.l := by
-  obtain ⟨res, hres, h1, h2, h3⟩ := C11.avoid_collisions_spec shapes (LF.lineABox y w h) cb false pl
-    (by simp [LF.lineABox]) ha
+  obtain ⟨res, hres, h1, h2, h3⟩ := C11.avoid_collisions_result shapes (LF.lineABox y w h) cb false pl ha
   have hz : ∀ q : Rat, q - 0 = q := by intro q; grind
   simp [LF.lineABox, hl, Rat.add_zero, hz] at hres h1 h2 h3
   obtain ⟨hy, hl0, hr0⟩ := C11.avoid_result_bounds _ _ _ _ _ _ _ res hres
